@@ -30,4 +30,10 @@ def runLeak (c : Case) : String := s!"res {c.id} leaked=0 released=1 closed=1 wh
     lock skeletons), and `Next` with an observer delivers before it returns (C10.unicast_delivers_outside_lock). -/
 def runNextRet (c : Case) : String := s!"res {c.id} early=0 delivered=1"
 
+
+/-- `kind=ctxpair` (C09, time-driven and hand-off operators; go/harness/ctxpair.go): every delivered notification carries the
+    context it was sent with — the queues of `Delay`, `detachOn` (ObserveOn / SubscribeOn) and the stored value of
+    `SampleTime` hold (context, notification) pairs, never a context apart from its notification. -/
+def runCtxPair (c : Case) : String := s!"res {c.id} bad=0 term=ok"
+
 end Ro.Driver.Drivers.Cancel
